@@ -38,6 +38,9 @@ type Result struct {
 	Violations   []Violation      `json:"violations"`
 	Inconclusive []string         `json:"inconclusive"`
 	Exhaustive   *bool            `json:"exhaustive,omitempty"`
+	// Floors: counters that must reach a minimum over the WHOLE run (all batches together) for the
+	// verdict "held" to mean anything. The supervisor sums the counters and checks.
+	Floors map[string]int64 `json:"floors,omitempty"`
 	WallS        float64          `json:"wall_s"`
 	Done         bool             `json:"done"`
 }
@@ -170,6 +173,16 @@ func (c *Ctx) Inconclusive(why string) {
 	if len(c.res.Inconclusive) < 20 {
 		c.res.Inconclusive = append(c.res.Inconclusive, why)
 	}
+	c.mu.Unlock()
+}
+
+// Floor declares that the named counter must reach min over all batches of the run.
+func (c *Ctx) Floor(name string, min int64) {
+	c.mu.Lock()
+	if c.res.Floors == nil {
+		c.res.Floors = map[string]int64{}
+	}
+	c.res.Floors[name] = min
 	c.mu.Unlock()
 }
 
